@@ -379,6 +379,44 @@ theorem unscheduleCompleted_wp (s : SchedSt) (msgs : List (List Nat)) :
       | cons x xs ih => intro acc; rw [foldl_cons, ih, releaseOne_wp]
     rw [key]
 
+/-! ### the placement routine does not look at the wait pool -/
+
+theorem finishTask_frame (s : SchedSt) (W : List (Int × List Req)) (r : Req) (it : IterSt) :
+    finishTask { s with waitpool := W } r it = ((finishTask s r it).1, { (finishTask s r it).2 with waitpool := W }) := by
+  unfold finishTask
+  split
+  · rfl
+  · split <;> rfl
+
+theorem scheduleTask_frame (c : Cfg) (s : SchedSt) (W : List (Int × List Req)) (r : Req) :
+    scheduleTask c { s with waitpool := W } r = ((scheduleTask c s r).1, { (scheduleTask c s r).2 with waitpool := W }) := by
+  unfold scheduleTask
+  split
+  · rfl
+  · split
+    · rfl
+    · have e1 : coloOf { s with waitpool := W } r = coloOf s r := rfl
+      have e2 : skipOf { s with waitpool := W } r = skipOf s r := rfl
+      simp only [e1, e2]
+      split
+      · rfl
+      · exact finishTask_frame s W r _
+
+theorem tryAllocation_frame (c : Cfg) (s : SchedSt) (W : List (Int × List Req)) (r : Req) :
+    tryAllocation c { s with waitpool := W } r = ((tryAllocation c s r).1, { (tryAllocation c s r).2 with waitpool := W }) := by
+  unfold tryAllocation
+  rw [scheduleTask_frame]
+  rcases scheduleTask c s r with ⟨res, s'⟩
+  cases res with
+  | error e => rfl
+  | ok o =>
+    cases o with
+    | none => simp only; split <;> rfl
+    | some sl =>
+      cases sl with
+      | nil => simp only; split <;> rfl
+      | cons x xs => simp only; split <;> rfl
+
 /-! ### placement of incoming tasks (per priority) -/
 
 /-- every task handed to the placement step ends up exactly once either in the event list (started or
@@ -908,6 +946,108 @@ theorem waitpoolOne_conserve (c : Cfg) (s : SchedSt) (p : Int) (u : Nat) (hk : K
       rw [uids_append, count_append] at hset
       simp only [evUids_append, count_append, evUids_map_adv]
       omega
+
+theorem poolOf_map_other (wp : List (Int × List Req)) (p q : Int) (l : List Req) (h : q ≠ p) :
+    poolOf (wp.map (fun e => if e.1 = p then (p, l) else e)) q = poolOf wp q := by
+  induction wp with
+  | nil => rfl
+  | cons e wp ih =>
+    rw [map_cons, poolOf_cons, poolOf_cons]
+    by_cases he : e.1 = p
+    · have hpq : ¬ p = q := fun x => h x.symm
+      have hq : ¬ e.1 = q := by rw [he]; exact hpq
+      simp only [he, if_true, hpq, if_false]
+      rw [← he] at hpq
+      exact ih
+    · simp only [he, if_false]
+      split
+      · rfl
+      · exact ih
+
+theorem poolOf_append_other (wp : List (Int × List Req)) (p q : Int) (l : List Req) (h : q ≠ p) :
+    poolOf (wp ++ [(p, l)]) q = poolOf wp q := by
+  induction wp with
+  | nil =>
+    have hpq : ¬ p = q := fun x => h x.symm
+    rw [nil_append, poolOf_cons]
+    simp only [hpq, if_false]
+  | cons e wp ih =>
+    rw [cons_append, poolOf_cons, poolOf_cons]
+    split
+    · rfl
+    · exact ih
+
+theorem poolOf_setPool_other (wp : List (Int × List Req)) (p q : Int) (l : List Req) (h : q ≠ p) :
+    poolOf (setPool wp p l) q = poolOf wp q := by
+  unfold setPool
+  split
+  · exact poolOf_map_other wp p q l h
+  · exact poolOf_append_other wp p q l h
+
+theorem poolOf_setPool_same (wp : List (Int × List Req)) (p : Int) (l : List Req) : poolOf (setPool wp p l) p = l := by
+  unfold setPool
+  by_cases h : wp.any (fun e => e.1 = p) = true
+  · rw [if_pos h]
+    induction wp with
+    | nil => simp at h
+    | cons e wp ih =>
+      rw [map_cons, poolOf_cons]
+      by_cases he : e.1 = p
+      · simp [he]
+      · simp only [he, if_false]
+        apply ih
+        simpa [he] using h
+  · rw [if_neg h]
+    induction wp with
+    | nil => simp [poolOf]
+    | cons e wp ih =>
+      rw [cons_append, poolOf_cons]
+      have he : ¬ e.1 = p := by
+        intro x; apply h; simp [x]
+      rw [if_neg he]
+      apply ih
+      intro hx; apply h
+      rw [any_cons, hx]; simp
+
+/-- `lazy_bisect` over one element: the element is checked once, and that is all -/
+theorem lazyBisect_single (c : Cfg) (r : Req) (s : SchedSt) :
+    lazyBisect c [r] s
+      = match tryAllocation c s r with
+        | (.ok true,  s') => ({ lastGood := some 0, good := [0] }, s')
+        | (.ok false, s') => ({ lastBad := some 0, bad := [0] }, s')
+        | (.error _,  s') => ({ lastBad := some 0, fail := [0] }, s') := by
+  unfold lazyBisect
+  simp only [List.cons_ne_nil, if_false, List.length_singleton]
+  rw [bisLoop]
+  simp only [bisCheck, List.length_singleton, Nat.sub_self, List.getElem?_cons_zero]
+  rcases tryAllocation c s r with ⟨res, s'⟩
+  cases res with
+  | error e => simp only; rw [bisLoop]; simp
+  | ok b =>
+    cases b with
+    | true => simp only; rw [bisLoop]; simp
+    | false => simp only; rw [bisLoop]; simp
+
+/-- a pool with one task through `_schedule_waitpool`: the task is tried once -/
+theorem waitpoolOne_single (c : Cfg) (s : SchedSt) (p : Int) (r : Req) (hp : poolOf s.waitpool p = [r]) (henv : envOk s.envs r = true) :
+    waitpoolOne c s p
+      = match tryAllocation c s r with
+        | (.ok true,  s') => ({ s' with waitpool := setPool s'.waitpool p [] }, [Ev.adv r.uid "AGENT_EXECUTING_PENDING"], true, false)
+        | (.ok false, s') => ({ s' with waitpool := setPool s'.waitpool p [r] }, [], false, true)
+        | (.error _,  s') => ({ s' with waitpool := setPool s'.waitpool p [] }, [Ev.adv r.uid "FAILED"], false, false) := by
+  have hnw : envWait s.envs r = false := by
+    unfold envOk at henv; unfold envWait
+    cases he : r.env with
+    | none => rfl
+    | some e => rw [he] at henv; simp only [decide_eq_true_eq] at henv; simp [henv]
+  unfold waitpoolOne
+  simp only [hp, cons_ne_nil, if_false, filter_cons, henv, hnw, filter_nil, if_true, Bool.false_eq_true]
+  have hs : sortDesc (fun r => r.ranks * r.cpr * r.gpr) [r] = [r] := by simp [sortDesc, insertDesc]
+  rw [hs, lazyBisect_single]
+  rcases tryAllocation c s r with ⟨res, s'⟩
+  cases res with
+  | error e => simp [pickIdx]
+  | ok b => cases b <;> simp [pickIdx]
 
 /-- one step of the fold of `_schedule_waitpool` -/
 def wpStep (c : Cfg) (acc : SchedSt × List Ev × Bool × Bool) (p : Int) : SchedSt × List Ev × Bool × Bool :=
